@@ -16,6 +16,18 @@ from harness.rfsession import hx, unhex, sb, b01, show_radio, show_air, split_op
 NET_CALL_BUDGET = 600_000
 
 
+# the application's message buffer: ONE bytearray per session, rewritten in place before each RF24Network.write() /
+# send() (which copy the frame, D12).  multicast() and the mesh classes' write()/send() keep the caller's object in
+# frame_buf.message by design (nothing reads it after the call returns); they get fresh immutable bytes, otherwise the
+# node digest would show the application's later edits of its own buffer.
+_MSG = bytearray()
+
+
+def pooled(b: bytes) -> bytearray:
+    _MSG[:] = b
+    return _MSG
+
+
 def show_frame(f) -> str:
     h = f.header
     t = h.message_type
@@ -158,7 +170,7 @@ class NetSession:
         if m == "dflt":          # the call with its optional parameters omitted
             m = t[1]
             if m == "write":
-                frame = RF24NetworkFrame(RF24NetworkHeader(int(t[2]), int(t[3])), unhex(t[4]))
+                frame = RF24NetworkFrame(RF24NetworkHeader(int(t[2]), int(t[3])), pooled(unhex(t[4])))
                 return f"{sb(node.write(frame))} frame={show_frame(frame)}"
             if m == "multicast":
                 return sb(node.multicast(unhex(t[2]), int(t[3])))
@@ -176,11 +188,11 @@ class NetSession:
             return "N" if f is None else show_frame(f)
         if m == "write":
             hdr = RF24NetworkHeader(int(t[1]), int(t[2]))
-            frame = RF24NetworkFrame(hdr, unhex(t[3]))
+            frame = RF24NetworkFrame(hdr, pooled(unhex(t[3])))
             r = node.write(frame, int(t[4]))
             return f"{sb(r)} frame={show_frame(frame)}"
         if m == "writeid":       # a frame whose header (hence frame_id) the caller re-uses
-            frame = RF24NetworkFrame(RF24NetworkHeader(int(t[1]), int(t[2])), unhex(t[3]))
+            frame = RF24NetworkFrame(RF24NetworkHeader(int(t[1]), int(t[2])), pooled(unhex(t[3])))
             frame.header.frame_id = int(t[4])
             r = node.write(frame)
             return f"{sb(r)} frame={show_frame(frame)}"
@@ -199,7 +211,7 @@ class NetSession:
             v = getattr(node, t[1])
             return sb(v) if isinstance(v, bool) else str(int(v))
         if m == "nsend":
-            return sb(node.send(RF24NetworkHeader(int(t[1]), int(t[2])), unhex(t[3])))
+            return sb(node.send(RF24NetworkHeader(int(t[1]), int(t[2])), pooled(unhex(t[3]))))
         if m == "set":
             a, v = t[1], t[2]
             if a == "node_address":
